@@ -4,13 +4,15 @@ pub mod c02;
 pub mod c03;
 pub mod c05;
 pub mod c09;
+pub mod c10;
+pub mod c10_e2e;
 pub mod c16;
 pub mod c20;
 
 pub type RunFn = fn(&RunCfg, Option<&str>) -> i32;
 
 pub fn all() -> Vec<(&'static str, RunFn)> {
-    vec![("C03", c03::run as RunFn), ("C16", c16::run as RunFn), ("C05", c05::run as RunFn), ("C02", c02::run as RunFn), ("C20", c20::run as RunFn), ("C09", c09::run as RunFn)]
+    vec![("C03", c03::run as RunFn), ("C16", c16::run as RunFn), ("C05", c05::run as RunFn), ("C02", c02::run as RunFn), ("C20", c20::run as RunFn), ("C09", c09::run as RunFn), ("C10", c10::run as RunFn)]
 }
 
 /// Entry point of child processes (`harness <ID> --child <seed>`).
@@ -18,6 +20,7 @@ pub fn child(id: &str, seed: u64) -> i32 {
     match id {
         "C02" => c02::child(seed),
         "C20" => c20::child(seed),
+        "C10" => c10_e2e::child(seed),
         _ => {
             eprintln!("no child mode for {}", id);
             2
